@@ -120,6 +120,12 @@ func c13Bases() []c13Base {
 		{id: "joined-decl", renamable: []string{"x", "y"},
 			lines: cat(pl("header", "@@"), pl("meta", "var x, y expression"), pl("metaend", "@@"), pl("body", "-foo(x)", "-bar(y)", "+both(x, y)")),
 			files: []string{fnBody("foo(a)", "bar(y)"), fnBody("foo(1)", "mid()", "bar(2)"), fnBody("bar(1)", "foo(2)"), fnBody("foo(n)", "bar(n)", "foo(a)", "bar(a)")}},
+		{id: "ctx-list-two-elisions", renamable: []string{"x"},
+			lines: cat(pl("header", "@@"), pl("meta", "var x expression"), pl("metaend", "@@"), pl("body", " register(..., x, nil, ...)", "-start()", "+run(x)")),
+			files: []string{fnBody("register(a, y, nil, n)", "start()"), fnBody("register(y, nil)", "start()"), fnBody("register(1, 2, a, nil, 3, 4)", "start()", "start()"), fnBody("register(nil, a)", "start()")}},
+		{id: "sig-two-elisions", renamable: []string{"n"},
+			lines: cat(pl("header", "@@"), pl("meta", "var n identifier"), pl("metaend", "@@"), pl("body", " func n(..., last int) (..., error) {", "-  start()", "+  run()", "   ...", " }")),
+			files: []string{"package p\n\nfunc g(a string, last int) (int, error) {\n\tstart()\n\treturn 0, nil\n}\n", "package p\n\nfunc g(last int) error {\n\tstart()\n\treturn nil\n}\n", "package p\n\nfunc g(a, b string, c bool, last int) (x, y int, err error) {\n\tstart()\n\treturn\n}\n", "package p\n\nfunc g(last int) {\n\tstart()\n}\n"}},
 		{id: "value-decl", renamable: []string{"x"},
 			lines: cat(pl("desc", "# value"), pl("header", "@@"), pl("meta", "var x expression"), pl("metaend", "@@"), pl("body", "-var v = foo(x)", "+var v = bar(x)")),
 			files: []string{"package p\n\nvar v = foo(1)\n", "package p\n\nfunc f() {\n\tvar v = foo(y)\n\t_ = v\n}\n", "package p\n\nvar w = foo(1)\n", "package p\n\nvar (\n\tv = foo(1)\n)\n"}},
